@@ -149,8 +149,13 @@ class Findings:
             from .cref import optable
             subs, macs, _ = corpus_run.res()
             il_subs = corpus_run.il_subs(extra.get("fmt") or "READ_STATEMENTS")
-            r = tv.check_il_pair(rec, cur, il_subs, il_subs, optable(extra["c"], [d["code"] for d in subs.values()]),
-                                 tv.Opts(unroll=9, timeout_ms=10000))
+            opts = tv.Opts(unroll=9, timeout_ms=10000)
+            if key.startswith("sub:"):
+                d = subs.get(key[4:])
+                if d is None:
+                    return True
+                opts = tv.Opts(unroll=17, timeout_ms=10000, sub_params=d["params"], sub_ret=d["return_type"])
+            r = tv.check_il_pair(rec, cur, il_subs, il_subs, optable(extra["c"], [d["code"] for d in subs.values()]), opts)
             self.queries += 1
         except Exception:  # noqa - cannot decide: stay quiet (a known finding is never escalated on doubt)
             return True
